@@ -309,3 +309,28 @@ func VfAuthCrash() {
 	_ = middlewares.VerifyV4Signature(root, vfIAM{}, nil, nil, "us-east-1", false)(ctx)
 	zzvf.Reach("answered")
 }
+
+// VfDecodeURL: C04 – whatever the raw (percent-encoded) request path, a request that the URL decoder passes on has a
+// decoded path without "." or ".." segments (so bucket and key never carry them into the backends).
+func VfDecodeURL() {
+	n := 5 + 2*zzvf.Tier()
+	zzvf.Bound("raw_path_len_max", n)
+	ctx := zzvfbe.NewRequest()
+	raw := "/" + zzvf.String("rawpath", n)
+	zzvfbe.R.Path = raw
+	_ = middlewares.DecodeURL(nil, nil)(ctx)
+	if zzvfbe.W.NextCalls == 1 {
+		zzvf.Reach("passed-on")
+		p := zzvfbe.R.Path
+		start := 0
+		for i := 0; i <= len(p); i++ {
+			if i == len(p) || p[i] == '/' {
+				seg := p[start:i]
+				zzvf.Assert(zzvf.And(seg != ".", seg != ".."), "decoded-path-has-no-dot-segment")
+				start = i + 1
+			}
+		}
+	} else {
+		zzvf.Reach("refused")
+	}
+}
